@@ -95,6 +95,14 @@ func Write(c *spec.Case, root string, env Env) (*Layout, error) {
 			return nil, err
 		}
 	}
+	if hh := compositeHelpersFor(c, true); hh != "" {
+		// helpers over types of a hidden external package: only the harness' own builds (tag
+		// vcasehidden) see this file, the generator's view of the package never imports that package
+		src := withImports(c, UserPkg, hh+"var _ = vrt.Mix\n")
+		if err := w(filepath.Join(l.AppDir, "hidden_helpers.go"), "//go:build "+HiddenTag+"\n\n"+src); err != nil {
+			return nil, err
+		}
+	}
 	for i := range c.Files {
 		f := &c.Files[i]
 		p := filepath.Join(l.AppDir, f.Name)
@@ -105,6 +113,9 @@ func Write(c *spec.Case, root string, env Env) (*Layout, error) {
 	}
 	return l, nil
 }
+
+// HiddenTag is the build tag of the helper file over hidden external packages.
+const HiddenTag = "vcasehidden"
 
 func kname(c *spec.Case) string {
 	if c.KAlias != "" {
@@ -353,11 +364,18 @@ func helperRef(c *spec.Case, id spec.TypeID, from, which string) string {
 }
 
 // compositeHelpers renders mk_/vh_ for unnamed types (and named types of other packages) in the user package.
-func compositeHelpers(c *spec.Case) string {
+func compositeHelpers(c *spec.Case) string { return compositeHelpersFor(c, false) }
+
+// compositeHelpersFor renders the helpers of the types that mention a hidden external package
+// (hidden = true) or of all other types (hidden = false).
+func compositeHelpersFor(c *spec.Case, hidden bool) string {
 	var sb strings.Builder
 	for i := range c.Types {
 		t := &c.Types[i]
 		id := t.ID
+		if t.Kind != "none" && c.MentionsHidden(id) != hidden {
+			continue
+		}
 		ex := c.Expr(id, "")
 		switch t.Kind {
 		case "none":
@@ -449,6 +467,27 @@ func namesSource(c *spec.Case) string {
 func extSource(c *spec.Case, e *spec.Ext) string {
 	var sb strings.Builder
 	sb.WriteString("package " + e.Name + "\n\nimport \"vrt\"\n\n")
+	// other external packages mentioned in the signatures of this package's providers
+	others := map[string]bool{}
+	for i := range c.Provs {
+		p := &c.Provs[i]
+		if p.Form == "ext" && p.Pkg == e.Key {
+			for _, t := range append(append([]spec.TypeID{}, p.Params...), p.Results...) {
+				c.UsesExt(t, others)
+			}
+		}
+	}
+	delete(others, e.Key)
+	for i := range c.Exts {
+		o := &c.Exts[i]
+		if others[o.Key] {
+			n := o.Name
+			if o.Alias != "" {
+				n = o.Alias
+			}
+			fmt.Fprintf(&sb, "import %s %q\n\n", n, Module+"/"+o.Path)
+		}
+	}
 	sb.WriteString(typeDecls(c, e.Key))
 	// composite helpers needed by ext struct fields: ext field types are restricted to named ext types and basics
 	for i := range c.Types {
